@@ -10,7 +10,7 @@ import (
 
 func init() {
 	registerProperty(&Property{
-		ID: "C01",
+		ID:          "C01",
 		Explanation: "Narrow. The statement equates the scanned rows with a sequential reference evaluation; that is a property of values and is NOT decided. Three clauses visible in the shape of the code are decided: (R1) a line source never reads a token before advancing — on every feasible path to (*bufio.Scanner).Text/Bytes in the module at least one Scan is guaranteed since the scanner was created or last read (a read without an advance invents an empty row or repeats one); (R2) the side-effecting operators see every upstream read exactly once, including the last: every path of writerFuncReader.Read that performs the upstream Read performs exactly one write callback with that read's error and exactly its first n rows, the sticky error is tested first and the callback's error never masks a read error; scanReader.Read hands the upstream reader to the callback once and turns a nil result into end-of-stream; (R3 = C12-R5) result rows are concatenated in shard order. Not decided: equality with the reference rows, buffer-boundary behaviour of flatmap/filter, constShard arithmetic, nested shuffles, termination. The structural halves that can be decided are owned by C05 (partition wiring), C08 (graph shape), C10/C17 (error/EOF propagation, row counts).",
 		Rules: []Rule{
 			{ID: "C01-R1", Doc: "a line source advances before it reads", Run: c01r1},
